@@ -546,10 +546,11 @@ func (e Engine) Run(prop string, t *core.Tape, st *core.Stats) *core.Violation {
 	h := &hist{t: t, st: st, s: &jsonapi.Schema{}, m: &mSchema{}, prop: prop}
 	h.pickNames()
 
-	stop := t.Range(3, 40)
+	maxOps := t.Bound(40, 120)
+	stop := t.Range(3, maxOps)
 	checkedRel := false
 
-	for i := 0; i < 40 && t.More(stop); i++ {
+	for i := 0; i < maxOps && t.More(stop); i++ {
 		v, aborted := h.step()
 		if v != nil {
 			return v
